@@ -533,7 +533,36 @@ def _short_delim_neutral(i):
     return o
 
 
+def _unknown_flag_words(i):
+    cmds = (i.get("tree") or {}).get("cmds") or []
+    if not any(c.get("whitelist") for c in cmds):
+        return []
+    names = set(); shorts = set()
+    for c in cmds:
+        for f in c.get("flags") or []:
+            names.add(f["name"])
+            if f.get("short"):
+                shorts.add(f["short"])
+    out = []
+    for k, w in enumerate((i.get("words") or [])[:-1]):
+        if w.startswith("--") and len(w) > 2 and "=" not in w and w[2:] not in names and w != "--help":
+            out.append(k)
+        elif w.startswith("-") and not w.startswith("--") and len(w) > 1 and "=" not in w and any(ch not in shorts for ch in w[1:]):
+            out.append(k)
+    return out
+
+
+def _unknown_flag_neutral(i):
+    o = copy.deepcopy(i)
+    for k in _unknown_flag_words(i):
+        w = o["words"][k]
+        o["words"][k] = (w if w.startswith("--") else w[:2]) + "=x"
+    return o
+
+
 PARSE_CLASSES = [
+    Class("unknown_flag_takes_next_word", ("C01", "C07"), ("parse",), lambda i: bool(_unknown_flag_words(i)), _unknown_flag_neutral,
+          "a program that tolerates unknown flags (FParseErrWhitelist.UnknownFlags / CARAPACE_LENIENT): the parser drops the word after an unknown flag as that flag's value, traverse treats it - and the word under the cursor when it comes right after the flag - as a positional: `sub -z <TAB>` offers positional 0, and the accepted candidate disappears"),
     Class("posix_shorthand_custom_delimiter", ("C01",), ("parse",), _short_delim_applies, _short_delim_neutral,
           "a one-letter shorthand of a flag with a custom OptargDelimiter (`-e:<TAB>`): LookupArg cuts the word at the flag's own delimiter and offers `-e:value`, but the fork's POSIX parser knows only `=` there: it stores `:value` (delimiter included) in the flag - and panics on `-e=value`, whose text it cuts at the absent `:`"),
     Class("descent_heuristics", ("C01", "C07"), ("parse",), _descent_applies, _descent_neutral,
